@@ -805,9 +805,18 @@ class BaseSetIndexSortValues(Expr):
             divisions = mins.copy() + [maxes[-1]]
         return divisions
 
-    @property
+    @functools.cached_property
     def _npartitions_input(self):
-        return self.operand("npartitions") or self.frame.npartitions
+        npartitions = self.operand("npartitions")
+        if isinstance(npartitions, str) and npartitions == "auto":
+            # decide by memory use: partitions of about ``partition_size``
+            # bytes, never more than the input has
+            from dask.dataframe.dask_expr._repartition import _get_mem_usages
+
+            total = int(_get_mem_usages(self.frame).sum())
+            npartitions = max(math.ceil(total / self.partition_size), 1)
+            return min(npartitions, self.frame.npartitions)
+        return npartitions or self.frame.npartitions
 
     @property
     def npartitions(self):
@@ -889,11 +898,15 @@ class SetIndex(BaseSetIndexSortValues):
         return self.frame[self._other]
 
     def _lower(self):
+        npartitions = self.operand("npartitions")
+        if npartitions is not None and self.user_divisions is None:
+            # 'auto' is resolved from the memory usage
+            npartitions = self._npartitions_input
         if (
-            self.operand("npartitions") == 1
+            npartitions == 1
             or self.frame.npartitions == 1
             and (self.user_divisions is None or len(self.user_divisions) == 2)
-            and self.operand("npartitions") is None
+            and npartitions is None
         ):
             expr = self.frame
             other = self._other
